@@ -103,6 +103,38 @@ pub fn spki_spliced_resigned(victim_pub: &[u8; 32], signer_seed: &[u8; 32], name
     der
 }
 
+/// A certificate that is correctly self-signed by `signer_seed` (SPKI = signer's key) but whose
+/// subject/issuer common name contains the DER encoding of an Ed25519 SubjectPublicKeyInfo for
+/// `decoy_pub`: anything that finds "the" key by scanning bytes instead of parsing sees the decoy.
+pub fn key_shaped_name(decoy_pub: &[u8; 32], signer_seed: &[u8; 32], names: &[String]) -> Vec<u8> {
+    use x509_parser::prelude::FromDer;
+    let placeholder = "Q".repeat(44);
+    let mut p = params(names, Validity::Valid);
+    p.distinguished_name = rcgen::DistinguishedName::new();
+    p.distinguished_name.push(rcgen::DnType::CommonName, placeholder.clone());
+    let mut der = p.self_signed(&ed_keypair(signer_seed)).expect("cert").der().to_vec();
+    let mut decoy = hex::decode("302a300506032b6570032100").unwrap();
+    decoy.extend_from_slice(decoy_pub);
+    // the placeholder appears in issuer and subject
+    let mut from = 0;
+    while let Some(pos) = der[from..].windows(44).position(|w| w == placeholder.as_bytes()) {
+        der[from + pos..from + pos + 44].copy_from_slice(&decoy);
+        from += pos + 44;
+    }
+    let (tbs_range, sig_range) = {
+        let (_, cert) = x509_parser::certificate::X509Certificate::from_der(&der).expect("parse");
+        let tbs = cert.tbs_certificate.as_ref();
+        let start = tbs.as_ptr() as usize - der.as_ptr() as usize;
+        let sig = cert.signature_value.data.as_ref();
+        let sstart = sig.as_ptr() as usize - der.as_ptr() as usize;
+        ((start, start + tbs.len()), (sstart, sstart + sig.len()))
+    };
+    let kp = ring::signature::Ed25519KeyPair::from_seed_unchecked(signer_seed).unwrap();
+    let sig = kp.sign(&der[tbs_range.0..tbs_range.1]);
+    der[sig_range.0..sig_range.1].copy_from_slice(sig.as_ref());
+    der
+}
+
 // ------------------------------------------------------------------ signing keys without checks
 
 #[derive(Clone, Debug, Serialize, Deserialize, PartialEq, Eq, Hash)]
@@ -327,6 +359,27 @@ pub fn server_config(identity: &Presented, require_client_cert: bool, seen: Reco
 pub fn raw_endpoint(fabric: &Arc<Fabric>, addr: SocketAddr, server: Option<quinn::ServerConfig>) -> std::io::Result<quinn::Endpoint> {
     let sock = fabric.bind(addr)?;
     quinn::Endpoint::new_with_abstract_socket(quinn::EndpointConfig::default(), server, sock, Arc::new(quinn::TokioRuntime))
+}
+
+/// Connection ids from a counter (deterministic), every id validates.
+struct CountingCids(u64);
+impl quinn::ConnectionIdGenerator for CountingCids {
+    fn generate_cid(&mut self) -> quinn::ConnectionId {
+        self.0 = self.0.wrapping_mul(6364136223846793005).wrapping_add(1442695040888963407);
+        quinn::ConnectionId::new(&self.0.to_be_bytes())
+    }
+    fn cid_len(&self) -> usize { 8 }
+    fn cid_lifetime(&self) -> Option<std::time::Duration> { None }
+}
+
+/// A raw endpoint whose stateless-reset key is fixed and whose connection ids validate for ever:
+/// a later endpoint built the same way at the same address answers packets of its previous
+/// life with a valid stateless reset.
+pub fn raw_endpoint_remembering_resets(fabric: &Arc<Fabric>, addr: SocketAddr, server: Option<quinn::ServerConfig>, reset_key: &[u8; 64]) -> std::io::Result<quinn::Endpoint> {
+    let sock = fabric.bind(addr)?;
+    let mut cfg = quinn::EndpointConfig::new(Arc::new(ring::hmac::Key::new(ring::hmac::HMAC_SHA256, reset_key)));
+    cfg.cid_generator(|| Box::new(CountingCids(0x9e37_79b9_7f4a_7c15)));
+    quinn::Endpoint::new_with_abstract_socket(cfg, server, sock, Arc::new(quinn::TokioRuntime))
 }
 
 // ------------------------------------------------------------------ speaking anemo by hand
